@@ -377,6 +377,14 @@ class InverseMatcher(WrappingMatcher):
     def supports_block_quality(self):
         return False
 
+    def max_quality(self):
+        # Every posting of this matcher scores self._weight (the child's
+        # qualities describe the documents that are left out)
+        return self._weight
+
+    def block_quality(self):
+        return self._weight
+
     def _find_next(self):
         child = self.child
         missing = self.missing
